@@ -35,8 +35,25 @@ def parseIntStr (s : String) : Option Int :=
   | some (n, []) => some n
   | _ => none
 
+def parseSigned' (s : String) : Option Int :=
+  if s.startsWith "-" then
+    (unhexArg (s.drop 1).toString).bind fun o => o.map fun b => -(os2ip b : Int)
+  else (unhexArg s).bind fun o => o.map fun b => (os2ip b : Int)
+
+def curveBits' : String → Nat
+  | "p256" => 256 | "p384" => 384 | "p521" => 521 | "p224" => 224 | _ => 0
+
 def mkSigner (spec : String) : Option Signer :=
   match splitOnChar ':' spec with
+  | ["E", cn, rs, ss] =>
+    (match parseSigned' rs, parseSigned' ss with
+     | some r, some s =>
+       let alg : Int := if cn = "p256" then -7 else if cn = "p384" then -35 else -36
+       some { alg := alg, sign := fun _ =>
+         match encodeECDSASignature (orderSize (curveBits' cn)) r s with
+         | some sig => .ok sig
+         | none => .err .other }
+     | _, _ => none)
   | [kind, a, arg] =>
     (match parseIntStr a with
      | none => none
